@@ -134,7 +134,9 @@ class Conv:
         for it in self.t.get("init") or []:
             st = it.get("state")
             ds = "None"
-            if st:
+            if st and st.get("pending_t_ms") is not None:
+                ds = "(Some (DPending 0 %d, %d))" % (st["pending_t_ms"], st.get("gen", 0))
+            elif st:
                 raw = st["raw"]
                 try:
                     v = json.loads(raw)
